@@ -145,6 +145,8 @@ def cmp_out(a, b, case=None):
     """element-wise: marked floats with tolerance (scaled per number, see float_scales), everything else
     exact. Returns index of first difference or -1"""
     sc = None
+    if case is not None:
+        a, b = canon_out(case, a), canon_out(case, b)
     if case is not None and len(a) == len(b):
         sc = float_scales(case, a, b)
     n = min(len(a), len(b))
@@ -295,6 +297,102 @@ def run_both(ctx, cases, shard=40, tag="curve"):
     impl = run_harness("curve", [line(c) for c in cases])
     model = coq_eval("Run.RunCurve", "runCurve", cases, ctx.work, shard=shard, tag=tag)
     return impl, model
+
+
+def _canon_number(o, i, out):
+    """re-emits the Number encoded at o[i:] with its variable names in sorted order (derivative arrays permuted with
+    them) when it is well formed; returns the next index.  No property pins the order in which a number stores its
+    variables, so results are compared BY NAME."""
+    kind = o[i]
+    if kind == 0:
+        out += o[i:i + 2]
+        return i + 2
+    nv = o[i + 1]
+    j = i + 2
+    names = []
+    for _ in range(nv):
+        ln = o[j]
+        names.append(tuple(o[j + 1:j + 1 + ln]))
+        j += 1 + ln
+    re_ = o[j]
+    nd = o[j + 1]
+    du = o[j + 2:j + 2 + nd]
+    j += 2 + nd
+    r = c = 0
+    dd = []
+    if kind == 2:
+        r, c = o[j], o[j + 1]
+        dd = o[j + 2:j + 2 + r * c]
+        j += 2 + r * c
+    if len(set(names)) == nv == nd and (kind == 1 or (r == nv and c == nv)):
+        order = sorted(range(nv), key=lambda t: names[t])
+        names = [names[t] for t in order]
+        du = [du[t] for t in order]
+        if kind == 2:
+            dd = [dd[p * nv + q] for p in order for q in order]
+    out += [kind, nv]
+    for nm in names:
+        out += [len(nm)] + list(nm)
+    out += [re_, nd] + list(du)
+    if kind == 2:
+        out += [r, c] + list(dd)
+    return j
+
+
+def canon_out(case, o):
+    """the output of an op-10 case with every embedded Dual / Dual2 in canonical (sorted-name) form"""
+    if case[0] != 10 or not o or o[0] != 0:
+        return o
+    try:
+        head, acts = split_case(case)
+        out = [o[0]]
+        i = 1
+        for act in acts:
+            k = act[0]
+            if k in (0, 5, 6):
+                oc = o[i]
+                out.append(oc)
+                i += 1
+                if oc != 0:
+                    continue
+                kind = o[i]
+                i = _canon_number(o, i, out)
+                if k == 6 and kind >= 1:
+                    n1 = o[i]
+                    out += o[i:i + 1 + n1]
+                    i += 1 + n1
+                    if kind == 2:
+                        r, c = o[i], o[i + 1]
+                        out += o[i:i + 2 + r * c]
+                        i += 2 + r * c
+            elif k in (1, 3):
+                oc = o[i]
+                out.append(oc)
+                i += 1
+                if oc == 0:
+                    out.append(o[i])
+                    i += 1
+            elif k == 2:
+                out.append(o[i])
+                i += 1
+            elif k == 4:
+                oc = o[i]
+                out.append(oc)
+                i += 1
+                if oc != 0:
+                    continue
+                n = o[i]
+                out.append(n)
+                i += 1
+                for _ in range(n):
+                    out.append(o[i])
+                    i += 1
+                    i = _canon_number(o, i, out)
+        if i != len(o) or len(out) != len(o):
+            return o
+        return out
+    except (IndexError, ValueError, OverflowError, TypeError):
+        return o
 
 
 def split_case(case):
